@@ -11,13 +11,27 @@ from pbt import docs, refserver as ref, serverharness as sh, stdreg
 from pbt.runner import Check, Outcome
 
 
+def batch_limit(text: Any, choice: Any) -> Any:
+    """max_batch_size 'at and around the batch length': choice is None, an absolute number, or a string offset '-1' / '0' / '+1'
+    relative to the length of the generated batch"""
+    if isinstance(choice, str):
+        doc = text.get('doc') if isinstance(text, dict) else None
+        if isinstance(doc, list):
+            return max(0, len(doc) + int(choice))
+        return None
+    return choice
+
+
+BATCH_LIMITS = [None, None, None, 0, 1, 2, 3, 4, 6, '-1', '0', '0', '+1']
+
+
 def dispatch_case(registry_kind: str = 'std'):
     """strategy of dispatch case specs over the standard registry (shared with C02, C03, C11, C13)"""
     def for_kind(kind: str):
         reg = stdreg.std_registry(kind)
         return st.builds(
-            lambda text, beh, mbs: {'dispatcher': kind, 'max_batch_size': mbs, 'behaviours': beh, 'text': text},
-            docs.document(reg), stdreg.behaviours(), st.sampled_from([None, None, None, 0, 1, 2, 3, 4, 6]),
+            lambda text, beh, mbs: {'dispatcher': kind, 'max_batch_size': batch_limit(text, mbs), 'behaviours': beh, 'text': text},
+            docs.document(reg), stdreg.behaviours(), st.sampled_from(BATCH_LIMITS),
         )
     return st.one_of(for_kind('sync'), for_kind('async'))
 
